@@ -219,6 +219,12 @@ impl Repository {
             .context(error::TransportSnafu { url })?;
         file.write_all(&root_file_data)
             .await
+            .context(error::CacheFileWriteSnafu {
+                path: outpath.clone(),
+            })?;
+        // `tokio::fs::File` writes in the background: wait until the data is in the file.
+        file.flush()
+            .await
             .context(error::CacheFileWriteSnafu { path: outpath })
     }
 
